@@ -448,7 +448,83 @@ func registryCase(reg string) {
 	}
 }
 
+// randIP6: the inside of a bracketed IP literal: groups, ellipsis, embedded IPv4, zone -- valid
+// and with the defects netip.ParseAddr distinguishes
+func randIP6(r *common.Rand) string {
+	group := func() string {
+		n := 1 + r.Intn(4)
+		if r.Chance(1, 12) {
+			n = common.Pick(r, []int{0, 5, 6})
+		}
+		hexc := "0123456789abcdefABCDEF"
+		var sb strings.Builder
+		for i := 0; i < n; i++ {
+			sb.WriteByte(hexc[r.Intn(len(hexc))])
+		}
+		if r.Chance(1, 25) {
+			sb.WriteByte("gG.-_ "[r.Intn(6)])
+		}
+		return sb.String()
+	}
+	v4 := func() string {
+		oct := func() string {
+			return common.Pick(r, []string{"0", "1", "9", "10", "99", "127", "255", "256", "00", "01", "1000", "", "a", "1"})
+		}
+		n := common.Pick(r, []int{4, 4, 4, 4, 3, 5})
+		parts := make([]string, n)
+		for i := range parts {
+			parts[i] = oct()
+		}
+		return strings.Join(parts, ".")
+	}
+	total := common.Pick(r, []int{8, 8, 7, 6, 5, 4, 3, 2, 1, 0, 9, 10})
+	ell := -1
+	if total < 8 || r.Chance(1, 6) {
+		ell = r.Intn(total + 1)
+	}
+	if r.Chance(1, 8) {
+		ell = -1
+	}
+	withV4 := r.Chance(1, 4)
+	var sb strings.Builder
+	for i := 0; i < total; i++ {
+		if i == ell {
+			if i == 0 {
+				sb.WriteString("::")
+			} else {
+				sb.WriteString(":")
+			}
+		}
+		if withV4 && i == total-1 {
+			sb.WriteString(v4())
+		} else {
+			sb.WriteString(group())
+		}
+		if i < total-1 {
+			sb.WriteString(":")
+		}
+	}
+	if ell == total {
+		sb.WriteString("::")
+	}
+	s := sb.String()
+	switch r.Intn(10) {
+	case 0:
+		s += "%25" + common.Pick(r, []string{"en0", "eth0", "1", "", "a%20b", "a b", "%41", "e%zz", "x/y"})
+	case 1:
+		s += common.Pick(r, []string{"%en0", "%", "%2", ":", "::", ".", ":1.2.3.4", "x"})
+	}
+	return s
+}
+
 func randRegistry(r *common.Rand) string {
+	if r.Chance(1, 3) {
+		s := "[" + randIP6(r) + "]" + common.Pick(r, []string{"", "", ":5000", ":", ":a", "x"})
+		if r.Chance(1, 10) {
+			s = mutate(r, s)
+		}
+		return s
+	}
 	hosts := []string{"localhost", "a", "registry.example.com", "127.0.0.1", "a-b.c_d", "UP.Example", "xn--bcher-kva.example", "a~b", "a!b", "a$b&c", "(a)", "a*b", "a+b", "a,b;c=d", "a<b>", "a\"b", "\xc3\xa9.example",
 		"[::1]", "[fe80::1]", "[2001:db8::1]", "[::ffff:1.2.3.4]", "[fe80::1%25en0]", "[fe80::1%25e%20n]", "[1.2.3.4]", "[::1", "::1]", "[]", "[:]", "[g::1]", "[fe80::1%en0]", "[::1%25]", "a[b]", "[a]b"}
 	ports := []string{"", "", ":", ":5000", ":443", ":0", ":65536", ":99999999999999999999", ":a", ":5a", ":-1", "::5", ":5:6", ":5000:", ": 5"}
